@@ -6,7 +6,6 @@ rd,wtp=sys.argv[1],sys.argv[2]
 os.makedirs(rd+'/prompts',exist_ok=True)
 man=json.load(open('/verif/MANIFEST.json'))
 claimed={c['property_id'] for c in man['checks']}
-tmpl=open('/tmp/seeds4/prompts/C01.txt').read() if os.path.exists('/tmp/seeds4/prompts/C01.txt') else None
 for l in open('/verif/properties.jsonl'):
     p=json.loads(l); i=p['id']
     if i not in claimed: continue
